@@ -179,6 +179,10 @@ func (j *JWorld) reloadJob(id string) (*job, error) {
 	if err != nil || cfg.ID == "" {
 		return nil, fmt.Errorf("job %s not found after restart: %v", id, err)
 	}
+	// what Scheduler.Start does with every stored job: add it again (verifies, initialises handlers, stores it)
+	if err := j.Sched.AddJob(cfg); err != nil {
+		return nil, fmt.Errorf("AddJob of the stored definition: %v", err)
+	}
 	jobs, err := j.Sched.toTriggeredJobs(cfg)
 	if err != nil || len(jobs) == 0 {
 		return nil, fmt.Errorf("toTriggeredJobs: %v", err)
